@@ -5,7 +5,8 @@ SPEC = dict(
     technique="process-level monitor: the built binary in an isolated home, output compared with an in-process replica of the engine call the search command documents; history file inspected after every search",
     level_text="Sequences of 1-5 `wtf [search]` runs per isolated home over generated, missing and malformed databases, with generated queries "
                "(accepted, rejected, typos, recovery-only fragments, immediate repeats) and all values of --limit, --format, -v, --no-color / NO_COLOR "
-               "and the platform flags: no crash; rejected input is not searched; printed count <= limit in force and equal to the engine's count; "
+               "(the flag bare, =true, =1 and spelt out =false / =0, which leaves NO_COLOR in charge) and the platform flags, one run in ten from a working "
+               "directory that was removed under the shell: no crash; rejected input is not searched; printed count <= limit in force and equal to the engine's count; "
                "JSON result block is a well-formed array whose items are the engine's results in rank order (tie-tolerant, stable reference); no ESC "
                "byte when colour is off; history grew by exactly one entry (or none for an immediate repeat) whose newest entry is (validated query, "
                "printed count). A second engine runs every sub-command (help, history, pipeline, wizard with closed and scripted stdin, alias, setup, "
@@ -15,10 +16,10 @@ SPEC = dict(
     engines=[dict(name="cli-search", shards=T(16, 16), timeout=T(1500, 7200), needs_wtf=True),
              dict(name="cli-commands", shards=T(16, 16), timeout=T(1500, 7200), needs_wtf=True)],
     rule="case = one invocation of the built binary; non-trivial = a search that printed at least one result, or any sub-command invocation; distinct by argument vector (and stdin).",
-    floors=T({"accepted": 100, "rejected": 10, "format-json": 30, "format-list": 30, "format-table": 10, "no-color-runs": 40, "history-checked": 80,
-              "rank-order-compared": 20, "recovery-answers": 3, "db-kind-missing-path": 2, "db-kind-malformed": 2, "db-kind-shipped": 2, "homes-with-xdg-config-home": 8, "cmd-wizard": 50, "cmd-history": 50, "cmd-alias": 50, "cmd-save": 50, "cmd-save-pipeline": 30,
+    floors=T({"runs-in-a-removed-working-directory": 15, "no-color-false-spelt-out": 25, "accepted": 250, "rejected": 30, "format-json": 90, "format-list": 90, "format-table": 30, "no-color-runs": 120, "history-checked": 240,
+              "rank-order-compared": 60, "recovery-answers": 8, "db-kind-missing-path": 5, "db-kind-malformed": 5, "db-kind-shipped": 5, "homes-with-xdg-config-home": 24, "cmd-wizard": 50, "cmd-history": 50, "cmd-alias": 50, "cmd-save": 50, "cmd-save-pipeline": 30,
               "cmd-pipeline": 30, "cmd-setup": 30, "distinct_nontrivial": 500},
-             {"accepted": 1000, "rejected": 100, "format-json": 300, "format-list": 300, "format-table": 100, "no-color-runs": 400, "history-checked": 800,
+             {"runs-in-a-removed-working-directory": 300, "no-color-false-spelt-out": 500, "accepted": 1000, "rejected": 100, "format-json": 300, "format-list": 300, "format-table": 100, "no-color-runs": 400, "history-checked": 800,
               "rank-order-compared": 200, "recovery-answers": 30, "db-kind-missing-path": 20, "db-kind-malformed": 20, "db-kind-shipped": 20, "homes-with-xdg-config-home": 80, "cmd-wizard": 500, "cmd-history": 500, "cmd-alias": 500, "cmd-save": 500, "cmd-save-pipeline": 300,
               "cmd-pipeline": 300, "cmd-setup": 300, "distinct_nontrivial": 5000}),
     assumptions=["exit status 1 with a cobra usage error is a normal end of a command given wrong arguments"],
